@@ -1,2 +1,48 @@
-/- C08 property theorems (under construction) -/
-import Decaf.Model.Exec
+/-
+C08 — Equality, hashing and identity tests are mutually coherent.
+
+`eq_iff_coset`: the library's equality (x₁y₂ = y₁x₂ on any representatives, any projective scaling) holds exactly
+when the two curve points are in the same coset of ⟨T2⟩, i.e. denote the same group element — for ALL pairs of
+points of E.  Identity predicates: `is_identity` (X = 0), comparison with the identity constant and the zero test
+(after the repair: the same X = 0 test) agree on every representation.  Equality ⇔ same encoding and
+"equal ⇒ hash equal" (the hash input is the encoding since the repair) follow from C03 and are stated in Props/C03.
+-/
+import Decaf.Props.C04
+
+namespace C08
+open Model Edwards
+
+/-- equality of elements is the coset relation, for every pair of representatives -/
+theorem eq_iff_coset {c1 c2 : Ext} {p1 p2 : E} (h1 : ERepr c1 p1) (h2 : ERepr c2 p2) :
+    Ext.eq c1 c2 = true ↔ Point.Coset p1 p2 := Model.eq_iff_coset h1 h2
+
+/-- it does not depend on the projective scaling or on which member of the coset is stored -/
+theorem eq_respects_representative {c1 c1' c2 c2' : Ext} {p1 p1' p2 p2' : E}
+    (h1 : ERepr c1 p1) (h1' : ERepr c1' p1') (h2 : ERepr c2 p2) (h2' : ERepr c2' p2')
+    (e1 : Point.Coset p1 p1') (e2 : Point.Coset p2 p2') : Ext.eq c1 c2 = Ext.eq c1' c2' := by
+  have a := eq_iff_coset h1 h2
+  have b := eq_iff_coset h1' h2'
+  have : Point.Coset p1 p2 ↔ Point.Coset p1' p2' :=
+    ⟨fun h => (e1.symm.trans h).trans e2, fun h => (e1.trans h).trans e2.symm⟩
+  rcases hx : Ext.eq c1 c2 <;> rcases hy : Ext.eq c1' c2' <;> simp_all
+
+/-- equality is an equivalence relation on representatives -/
+theorem eq_refl {c : Ext} {p : E} (h : ERepr c p) : Ext.eq c c = true := C04.eq_of_repr_same h h
+theorem eq_symm {c1 c2 : Ext} {p1 p2 : E} (h1 : ERepr c1 p1) (h2 : ERepr c2 p2) (e : Ext.eq c1 c2 = true) :
+    Ext.eq c2 c1 = true := (eq_iff_coset h2 h1).mpr ((eq_iff_coset h1 h2).mp e).symm
+theorem eq_trans {c1 c2 c3 : Ext} {p1 p2 p3 : E} (h1 : ERepr c1 p1) (h2 : ERepr c2 p2) (h3 : ERepr c3 p3)
+    (e1 : Ext.eq c1 c2 = true) (e2 : Ext.eq c2 c3 = true) : Ext.eq c1 c3 = true :=
+  (eq_iff_coset h1 h3).mpr (((eq_iff_coset h1 h2).mp e1).trans ((eq_iff_coset h2 h3).mp e2))
+
+/-- every identity predicate gives the same answer on every representation:
+`is_identity` / `is_zero` (X = 0)  ⇔  `== IDENTITY` / `== default()`  ⇔  the point is 0 or T2 -/
+theorem identity_predicates_agree {c : Ext} {p : E} (h : ERepr c p) (hX : c.X < q) :
+    (Ext.isIdentity c = true ↔ Ext.eq c Ext.identity = true) ∧ (Ext.isIdentity c = true ↔ Point.Coset 0 p) := by
+  have a := isIdentity_iff h hX
+  have b := eq_iff_coset h identity_repr
+  exact ⟨⟨fun hi => b.mpr (a.mp hi).symm, fun he => a.mpr (b.mp he).symm⟩, a⟩
+
+/-- both representatives of the identity are recognised (the T2 representative is the case the pinned tree missed) -/
+example : Ext.isIdentity ⟨0, q - 1, 1, 0⟩ = true ∧ Ext.eq ⟨0, q - 1, 1, 0⟩ Ext.identity = true := by decide +kernel
+
+end C08
